@@ -208,6 +208,14 @@ def shapes(tier="quick", seed=0):
                                                    summary="Sum \"mary\"", description="Line one\nLine two with \\ backslash")],
                          {"Doc": obj({"t": {"type": "string", "description": "prop \"desc\"", "default": "dflt"}}, description="A doc.\n\nWith paragraphs.")},
                          info_extra={"description": "API \"desc\" with 'quotes'"}), free_text=True)
+    # --- spellings of one tag on different operations (the canonical spelling must be chosen identically by endpoints, client and mocks) ---
+    SPELL = ["data sources", "DataSources", "data_sources", "dataSources", "DATA-SOURCES", "Data Sources", "datasources"]
+    combos = [c for k in (2, 3) for c in itertools.combinations(range(len(SPELL)), k)]
+    if tier == "quick":
+        combos = [combos[i] for i in (0, 5, 11, 17, 23, 30, 41, 52) if i < len(combos)]
+    for ci, idx in enumerate(combos):
+        ops_ = [op(f"/sp{j}", "get", f"spOp{j}", [SPELL[i]] if j else [SPELL[i], "other"]) for j, i in enumerate(idx)]
+        add(f"tag-spelling-set-{'-'.join(map(str, idx))}", doc(f"SP{ci}", ops_), tag_variants=True)
     # --- response kinds: several content types on one response, arrays / maps / enums / unions / primitives of every flavour ---------
     add("multi-content-response", doc("MR", [
         op("/report/{id}", "get", "getReport", ["rep"], [param("id", "path")], responses={
